@@ -939,8 +939,48 @@ def call_ext(I, f, args, kwargs, node=None):
     b = f.bound
     h = _EXT.get(n)
     if h is not None:
+        if n in _MAX_POS and len(args) > _MAX_POS[n]:
+            raise EngineLimit(f"{n} called with {len(args)} positional arguments: only {_MAX_POS[n]} are modelled")
+        if kwargs and n in _IGNORES_KW():
+            extra = set(kwargs) - _KW_HARMLESS.get(n, set())
+            if extra:
+                # the dependency model does not look at keyword arguments: silently dropping one would be unsound
+                raise EngineLimit(f"keyword argument(s) {sorted(extra)} of {n} not modelled")
         return h(I, b, args, kwargs, node)
     raise EngineLimit(f"no model for external function {n}")
+
+
+# positional arguments the models look at (a further one - `size`, `start`, `order`, `key` ... - is not modelled)
+_MAX_POS = {"numpy.random.randint": 2, "list.index": 1, "builtins.len": 1, "builtins.abs": 1, "builtins.all": 1,
+            "builtins.any": 1, "builtins.sorted": 1, "dict.get": 2, "dict.pop": 2, "dict.setdefault": 2, "math.isclose": 2,
+            "math.ceil": 1, "set.add": 1, "list.append": 1, "list.insert": 2, "str.lower": 0, "numpy.copy": 1,
+            "ndarray.copy": 0, "ndarray.flatten": 0, "numpy.array_equal": 2, "numpy.float32": 1, "numpy.int64": 1,
+            "numpy.random.seed": 1, "numpy.random.random_sample": 1, "builtins.hash": 1, "builtins.divmod": 2,
+            "builtins.isinstance": 2, "builtins.type": 1, "builtins.enumerate": 2, "builtins.round": 2, "builtins.sum": 2}
+# keyword arguments that cannot change what the model states (documented per entry)
+_KW_HARMLESS = {
+    "builtins.print": {"end", "sep", "file", "flush"},             # output only
+    "gymnasium.Env.reset": {"seed", "options"},                    # assumed contract: only touches self.np_random
+    "gymnasium.spaces.Discrete.__init__": {"seed", "start"} - {"start"},
+    "gymnasium.spaces.MultiDiscrete.__init__": {"seed", "dtype"},
+}
+_IGN = None
+
+
+def _IGNORES_KW():
+    """models whose body never mentions `kw` (computed once from this module's source)"""
+    global _IGN
+    if _IGN is None:
+        import inspect
+        _IGN = set()
+        for name, fn in _EXT.items():
+            try:
+                body = inspect.getsource(fn).split(":", 1)[1]
+            except Exception:
+                continue
+            if "kw" not in body.replace("kwargs", ""):
+                _IGN.add(name)
+    return _IGN
 
 
 _EXT = {}
@@ -1029,9 +1069,17 @@ def _m_range(I, b, a, kw, node):
 @ext("builtins.enumerate")
 def _m_enumerate(I, b, a, kw, node):
     seq = I.as_sequence(a[0])
+    start = a[1] if len(a) > 1 else kw.get("start", 0)
+    if set(kw) - {"start"}:
+        raise EngineLimit(f"enumerate with keyword {sorted(kw)}")
     if isinstance(seq, list):
-        return PyList([(i, x) for i, x in enumerate(seq)])
-    return SymSeq(seq.n, lambda i, s=seq: (mk(ival(i), "int") if not isinstance(i, int) else i, s.elem(i)),
+        if isinstance(start, int):
+            return PyList([(i, x) for i, x in enumerate(seq, start)])
+        return PyList([(mk(ival(start) + i, "int"), x) for i, x in enumerate(seq)])
+    if isinstance(start, int) and start == 0:
+        return SymSeq(seq.n, lambda i, s=seq: (mk(ival(i), "int") if not isinstance(i, int) else i, s.elem(i)),
+                      "enumerate", seq.order_determined)
+    return SymSeq(seq.n, lambda i, s=seq, st=start: (mk(ival(i) + ival(st), "int"), s.elem(i)),
                   "enumerate", seq.order_determined)
 
 
